@@ -32,6 +32,9 @@ def run_all(patch, pids=PIDS):
     sh("python3 analysis/extract.py A B C D E", cwd=VERIF, env=env)  # all configurations concurrently
     for pid in pids:
         r = sh(f"./check {pid} quick", cwd=VERIF, env=env)
+        if "the tree does not compile in this configuration" in r.stdout + r.stderr:
+            sh("git checkout -q -- . && git clean -qfd", cwd=WT)
+            return {"error": "the patched tree does not compile (a change that does not build is not a seeded defect)"}
         keys = re.findall(r"^    instance: (.*)$", r.stdout, re.M)
         res[pid] = {"exit": r.returncode, "violations": sorted(set(k.split("|cfg=")[0] for k in keys))[:12]}
     sh("git checkout -q -- . && git clean -qfd", cwd=WT)
